@@ -302,31 +302,33 @@ def adv_argparse_src(r, toks, name="set_cli_args"):
     return "\n".join(L) + "\n"
 
 
-def adv_sqlalchemy_src(r, toks, name="Tbl"):
+def adv_sqlalchemy_src(r, toks, name="Tbl", calls=True):
+    """`calls=False`: hostile text only inside string literals (docs, comments), defaults are constants"""
     cols = r.sample([n for n in PNAMES if n != "kwargs"], r.randint(1, 3))
+    _expr_ = _expr if calls else (lambda rr: rr.choice(["5", "'s'", "None", "0.5", repr(rr.choice(PAYLOADS))]))
     if r.random() < 0.5:
         L = ["class %s(Base):" % name, "    " + _q(adv_docstring(r, toks, style="rest", names=cols, with_return=False)), "    __tablename__ = %r" % r.choice(["tbl", PAYLOADS[0]])]
         for i, n in enumerate(cols):
-            kw = [r.choice(["Integer", "String", "Enum('a', 'b', name='e')", _expr(r), "LargeBinary"])]
+            kw = [r.choice(["Integer", "String", "Enum('a', 'b', name='e')", _expr_(r), "LargeBinary"])]
             if i == 0:
                 kw.append("primary_key=True")
             if r.random() < 0.7:
-                kw.append("default=%s" % _expr(r))
+                kw.append("default=%s" % _expr_(r))
             if r.random() < 0.3:
-                kw.append("server_default=%s" % _expr(r))
+                kw.append("server_default=%s" % _expr_(r))
             kw.append("doc=%r" % _oneline(adv_desc(r, toks)))
             if r.random() < 0.3:
-                kw.append("nullable=%s" % r.choice(["True", _expr(r)]))
+                kw.append("nullable=%s" % r.choice(["True", _expr_(r)]))
             L.append("    %s = Column(%s)" % (n, ", ".join(kw)))
-        L.append("    def __repr__(self):\n        return %s" % _expr(r))
+        L.append("    def __repr__(self):\n        return %s" % _expr_(r))
         return "\n".join(L) + "\n"
     L = ["%s = Table(" % name.lower(), "    %r," % name.lower(), "    metadata,"]
     for i, n in enumerate(cols):
-        kw = ["%r" % n, r.choice(["Integer", "String", _expr(r)])]
+        kw = ["%r" % n, r.choice(["Integer", "String", _expr_(r)])]
         if i == 0:
             kw.append("primary_key=True")
         if r.random() < 0.7:
-            kw.append("default=%s" % _expr(r))
+            kw.append("default=%s" % _expr_(r))
         kw.append("doc=%r" % _oneline(adv_desc(r, toks)))
         L.append("    Column(%s)," % ", ".join(kw))
     L.append("    comment=%r," % adv_docstring(r, toks, style="rest", names=cols, with_return=False))
@@ -397,8 +399,12 @@ def adv_yaml_block(r):
     return "k: %s\nresponses:\n  '200': %s\n" % (atk, atk)
 
 
-def adv_bottle_src(r, toks, fname="read"):
-    yml = adv_yaml_block(r)
+BENIGN_YAML = "responses:\n  '200':\n    description: A `Foo` object.\n    content:\n      application/json:\n        schema:\n          $ref: ```Foo```\n" \
+              "  '404':\n    description: A `ServerError` object.\n"
+
+
+def adv_bottle_src(r, toks, fname="read", benign_yaml=False):
+    yml = BENIGN_YAML if benign_yaml else adv_yaml_block(r)
     doc = "%s\n\n```yml\n%s```\n\n:param name: %s\n:type name: ```%s```\n\n:return: x\n:rtype: ```dict```\n" % (
         r.choice(["Read one", _oneline(adv_desc(r, toks))]), yml, _oneline(adv_desc(r, toks)), adv_type(r))
     route = r.choice(["/api/foo/:name", "/api/foo", "/" + PAYLOADS[0]])
